@@ -17,6 +17,9 @@ are re-evaluated on the overlay; a new violation or a new analysis error is repo
     else-return if c: ..; return A  else: B  ->  if c: ..; return A  B                 (the else of a branch that always returns is hoisted)
     dict-call   dict(a=x, b=y)  ->  {"a": x, "b": y}
     dict-display {"a": x, "b": y}  ->  dict(a=x, b=y)                                  (every key a string that is an identifier)
+    loop-comp   v = []; for x in S: [if c:] v.append(E)  ->  v = [E for x in S if c]   (adjacent; the loop body is that one statement)
+    ret-ifexp   if c: return A  return B  ->  return A if c else B                     (adjacent; both values present)
+    attr-local  self.a ... self.a  ->  a__ = self.a  at the top; a__ ... a__          (an attribute of self read at least twice, never stored)
     chain-split v = a.f(..).g(..)  ->  chain__ = a.f(..); v = chain__.g(..)            (an assignment whose value is a method on a call)
 
     python3-vt tools/shape_probe.py swap-eq C07
@@ -27,7 +30,7 @@ sys.path.insert(0, str(pathlib.Path(__file__).resolve().parent.parent))
 sys.path.insert(0, str(pathlib.Path(__file__).resolve().parent))
 from alpha_rename import consulted, ROOT, ALL      # noqa: E402
 
-MODES = ["swap-eq", "flip-if", "flip-ifexp", "kw-order", "split-tuple", "named-ret", "and-chain", "comp-loop", "else-return", "dict-call", "dict-display", "chain-split"]
+MODES = ["swap-eq", "flip-if", "flip-ifexp", "kw-order", "split-tuple", "named-ret", "and-chain", "comp-loop", "else-return", "dict-call", "dict-display", "chain-split", "loop-comp", "ret-ifexp", "attr-local"]
 
 
 def _pure(e):
@@ -133,6 +136,26 @@ class _T(ast.NodeTransformer):
                 st.value.func.value = ast.Name(id=f"chain{self.n}__", ctx=ast.Load())
                 out.append(st)
                 continue
+            if self.mode == "loop-comp" and out and isinstance(st, ast.For) and not st.orelse and len(st.body) == 1 and isinstance(out[-1], ast.Assign) and \
+                    len(out[-1].targets) == 1 and isinstance(out[-1].targets[0], ast.Name) and isinstance(out[-1].value, ast.List) and not out[-1].value.elts:
+                nm = out[-1].targets[0].id
+                b, ifs = st.body[0], []
+                while isinstance(b, ast.If) and not b.orelse and len(b.body) == 1:
+                    ifs.append(b.test)
+                    b = b.body[0]
+                if isinstance(b, ast.Expr) and isinstance(b.value, ast.Call) and isinstance(b.value.func, ast.Attribute) and b.value.func.attr == "append" and \
+                        isinstance(b.value.func.value, ast.Name) and b.value.func.value.id == nm and len(b.value.args) == 1 and \
+                        not any(isinstance(x, ast.Name) and x.id == nm for x in ast.walk(b.value.args[0])) and \
+                        not any(isinstance(x, ast.Name) and x.id == nm for t_ in ifs for x in ast.walk(t_)):
+                    self.n += 1
+                    out[-1] = ast.copy_location(ast.Assign(targets=out[-1].targets, value=ast.ListComp(
+                        elt=b.value.args[0], generators=[ast.comprehension(target=st.target, iter=st.iter, ifs=ifs, is_async=0)])), out[-1])
+                    continue
+            if self.mode == "ret-ifexp" and out and isinstance(st, ast.Return) and st.value is not None and isinstance(out[-1], ast.If) and not out[-1].orelse and \
+                    len(out[-1].body) == 1 and isinstance(out[-1].body[0], ast.Return) and out[-1].body[0].value is not None:
+                self.n += 1
+                out[-1] = ast.copy_location(ast.Return(value=ast.IfExp(test=out[-1].test, body=out[-1].body[0].value, orelse=st.value)), out[-1])
+                continue
             if self.mode == "named-ret" and isinstance(st, ast.Return) and st.value is not None and not isinstance(st.value, (ast.Name, ast.Constant)):
                 self.n += 1
                 out.append(ast.copy_location(ast.Assign(targets=[ast.Name(id="result__", ctx=ast.Store())], value=st.value), st))
@@ -143,7 +166,7 @@ class _T(ast.NodeTransformer):
 
     def generic_visit(self, node):
         node = super().generic_visit(node)
-        if self.mode in ("split-tuple", "named-ret", "comp-loop", "else-return", "chain-split"):
+        if self.mode in ("split-tuple", "named-ret", "comp-loop", "else-return", "chain-split", "loop-comp", "ret-ifexp"):
             for fld in ("body", "orelse", "finalbody"):
                 v = getattr(node, fld, None)
                 if isinstance(v, list) and v and isinstance(v[0], ast.stmt):
@@ -163,6 +186,39 @@ def respell(src: str, lineno: int, name: str, mode: str):
     last = target.end_lineno
     t = _T(mode, target)
     new = t.visit(copy.deepcopy(target))
+    if mode == "attr-local":
+        new = copy.deepcopy(target)
+        if not (new.args.args and new.args.args[0].arg == "self"):
+            return None
+        loads, stores = {}, set()
+        for x in ast.walk(new):
+            if isinstance(x, ast.Attribute) and isinstance(x.value, ast.Name) and x.value.id == "self":
+                if isinstance(x.ctx, ast.Load):
+                    loads[x.attr] = loads.get(x.attr, 0) + 1
+                else:
+                    stores.add(x.attr)
+        # not the receiver of a call (a method), not stored, not the base of a store (self.a[k] = v / self.a.b = v)
+        called = {x.func.attr for x in ast.walk(new) if isinstance(x, ast.Call) and isinstance(x.func, ast.Attribute) and
+                  isinstance(x.func.value, ast.Name) and x.func.value.id == "self"}
+        based = {y.attr for x in ast.walk(new) if isinstance(x, (ast.Subscript, ast.Attribute)) and isinstance(x.ctx, (ast.Store, ast.Del))
+                 for y in ast.walk(x.value) if isinstance(y, ast.Attribute) and isinstance(y.value, ast.Name) and y.value.id == "self"}
+        nested = any(isinstance(x, (ast.FunctionDef, ast.Lambda, ast.ClassDef)) and x is not new for x in ast.walk(new))
+        cand = sorted(a for a, k in loads.items() if k >= 2 and a not in stores and a not in called and a not in based and not a.startswith("__"))
+        if not cand or nested:
+            return None
+        a = cand[0]
+
+        class A(ast.NodeTransformer):
+            def visit_Attribute(self, n):
+                n = self.generic_visit(n)
+                if isinstance(n.value, ast.Name) and n.value.id == "self" and n.attr == a and isinstance(n.ctx, ast.Load):
+                    return ast.copy_location(ast.Name(id=a + "__", ctx=ast.Load()), n)
+                return n
+        new = A().visit(new)
+        k0 = 1 if new.body and isinstance(new.body[0], ast.Expr) and isinstance(new.body[0].value, ast.Constant) and isinstance(new.body[0].value.value, str) else 0
+        new.body.insert(k0, ast.Assign(targets=[ast.Name(id=a + "__", ctx=ast.Store())],
+                                       value=ast.Attribute(value=ast.Name(id="self", ctx=ast.Load()), attr=a, ctx=ast.Load())))
+        t.n = 1
     if not t.n:
         return None
     ast.fix_missing_locations(new)
